@@ -62,11 +62,15 @@ package markdown
 //@ -- delim(a, w): the delimiter-row cell of a column with effective alignment a and w dashes (C08)
 //@ spec delim(a Iface, w int) Str = (a != nil && isRight(a) && !isLeft(a)) ? cat(cat(" ", repeat("-", w)), ":") : ((a != nil && isCenter(a) && !isLeft(a) && !isRight(a)) ? cat(cat(":", repeat("-", w)), ":") : cat(cat(" ", repeat("-", w)), " "))
 
+//@ -- mdW(c): the width the measuring callback stored on the cell (0 when it has not been measured)
+//@ spec mdWprop(c *tabular.Cell) Iface = lookup(heap[tabular.valueProperty.chain], heap[tabular.valueProperty.key], heap[tabular.valueProperty.val], c.properties, mkiface(type[*propertyKey], box(propWidth)))
+//@ spec mdW(c *tabular.Cell) int = dyn(mdWprop(c)) == type[width] ? mdWprop(c).(width).cellWidth : 0
+
 //@ func CellPropertyExtractWidth
 //@   tags C08,C09
 //@   requires cell != nil && chainOK(heap[tabular.valueProperty.chain], heap[tabular.valueProperty.key], heap[tabular.valueProperty.val], cell.properties)
 //@   assigns nothing
-//@   ensures true
+//@   ensures [stored-width-or-zero] result == mdW(cell) @C08
 
 //@ func (widthSetter).UpdateProperties
 //@   params ws, po
